@@ -65,4 +65,24 @@ def specResult (l : List (BitVec 8)) : List (BitVec 8) × BitVec 8 :=
   else if validPadB l then (l.take (l.length - ((l.getD (l.length - 1) 0).toNat + 1)), 255)
   else (l.take (l.length - 1), 0)
 
+/-- `removePaddingSSL30` (SSL 3.0: the padding bytes are random, only the length byte counts):
+      paddingLen := int(payload[len-1]) + 1;  if paddingLen > len { return payload, 0 }
+      return payload[:len-paddingLen], 255 -/
+def removePaddingSSL30 (l : List (BitVec 8)) : List (BitVec 8) × BitVec 8 :=
+  if l.length < 1 then (l, 0)
+  else
+    let paddingLen := (l.getD (l.length - 1) 0).toNat + 1
+    if paddingLen > l.length then (l, 0)
+    else (l.take (l.length - paddingLen), 255)
+
+/-- SSL 3.0 specification: the last byte p announces p+1 bytes of padding (length byte included);
+    valid iff they fit. -/
+def ValidPadSSL30 (l : List (BitVec 8)) : Prop :=
+  0 < l.length ∧ (l.getD (l.length - 1) 0).toNat + 1 ≤ l.length
+
+def specResultSSL30 (l : List (BitVec 8)) : List (BitVec 8) × BitVec 8 :=
+  if decide (0 < l.length) && decide ((l.getD (l.length - 1) 0).toNat + 1 ≤ l.length)
+  then (l.take (l.length - ((l.getD (l.length - 1) 0).toNat + 1)), 255)
+  else (l, 0)
+
 end BfeVerif.C43
